@@ -51,6 +51,8 @@ fn check_load(oi: usize, si: usize, mode: u8, thorough: bool) -> Option<(String,
             let pre = assemble(parse_ast(".orig x3000\nAND R0,R0,#0\nADD R0,R0,#5\nST R0, X\nBR #-1\nX .blkw 1\n.end").unwrap()).unwrap();
             sim.load_obj_file(&pre).map_err(|e| ("machinery".to_string(), format!("{e:?}")))?;
             for _ in 0..10 { let _ = sim.step_in(); }
+            // mirror cells of the I/O page hold whatever earlier device traffic left there
+            for (a, v) in [(0xFE04u16, 0x8000u16), (0xFE06, 0x0041), (0xFE10, 0x1234), (0xFFFF, 0xFFFF)] { sim.mem[a].set(v); }
         }
         if mode == 1 { sim.load_obj_file(&c.obj).map_err(|e| ("load-fails".to_string(), format!("{}: {e:?}", c.desc)))?; }
         let (mem0, regs0, pc0, psr0) = snapshot(&sim);
